@@ -187,6 +187,82 @@ UNIT = Ag(())
 
 
 # ------------------------------------------------------------------------------------------- state
+class Facts:
+    """difference bounds  a - b <= c, indexed by both ends (dict-like on (a, b) keys)"""
+    __slots__ = ("d", "fo", "fi")
+
+    def __init__(self, d=None):
+        self.d = {}
+        self.fo = {}
+        self.fi = {}
+        if d:
+            for k, c in d.items():
+                self[k] = c
+
+    def copy(self):
+        f = Facts.__new__(Facts)
+        f.d = dict(self.d)
+        f.fo = {k: set(v) for k, v in self.fo.items()}
+        f.fi = {k: set(v) for k, v in self.fi.items()}
+        return f
+
+    def get(self, k, default=None):
+        return self.d.get(k, default)
+
+    def __getitem__(self, k):
+        return self.d[k]
+
+    def __setitem__(self, k, c):
+        if k not in self.d:
+            self.fo.setdefault(k[0], set()).add(k[1])
+            self.fi.setdefault(k[1], set()).add(k[0])
+        self.d[k] = c
+
+    def __contains__(self, k):
+        return k in self.d
+
+    def __len__(self):
+        return len(self.d)
+
+    def __bool__(self):
+        return bool(self.d)
+
+    def __iter__(self):
+        return iter(self.d)
+
+    def __eq__(self, o):
+        return isinstance(o, Facts) and self.d == o.d
+
+    def items(self):
+        return self.d.items()
+
+    def keys(self):
+        return self.d.keys()
+
+    def pop(self, k, default=None):
+        if k in self.d:
+            self.fo[k[0]].discard(k[1])
+            self.fi[k[1]].discard(k[0])
+            return self.d.pop(k)
+        return default
+
+    def __delitem__(self, k):
+        self.pop(k)
+
+    def out(self, a):
+        """[(b, c)] with a - b <= c"""
+        d = self.d
+        return [(b, d[(a, b)]) for b in self.fo.get(a, ())]
+
+    def inc(self, b):
+        """[(a, c)] with a - b <= c"""
+        d = self.d
+        return [(a, d[(a, b)]) for a in self.fi.get(b, ())]
+
+    def touching(self, v):
+        return [(v, b) for b in self.fo.get(v, ())] + [(a, v) for a in self.fi.get(v, ())]
+
+
 class St:
     __slots__ = ("store", "itv", "facts", "prov", "scale", "taint", "part", "res")
 
@@ -195,7 +271,7 @@ class St:
         self.res = {}
         self.store = {}
         self.itv = {}
-        self.facts = {}
+        self.facts = Facts()
         self.prov = {}
         self.scale = {}
         self.taint = set()
@@ -204,7 +280,7 @@ class St:
         s = St()
         s.store = dict(self.store)
         s.itv = dict(self.itv)
-        s.facts = dict(self.facts)
+        s.facts = self.facts.copy()
         s.prov = dict(self.prov)
         s.scale = dict(self.scale)
         s.taint = set(self.taint)
@@ -231,6 +307,9 @@ class St:
         """a - b <= c"""
         if a == b:
             return
+        ia, ib = self.itv.get(a), self.itv.get(b)
+        if ia is not None and ib is not None and ia[1] - ib[0] <= c:
+            return      # implied by the intervals
         k = (a, b)
         o = self.facts.get(k)
         if o is None or c < o:
@@ -249,9 +328,10 @@ class St:
         if f is not None and (best is None or f < best):
             best = f
         # one step of transitivity through a third symbol
-        for (x, y), c in self.facts.items():
-            if x == a and y != b:
-                f2 = self.facts.get((y, b))
+        facts = self.facts
+        for y, c in facts.out(a):
+            if y != b:
+                f2 = facts.d.get((y, b))
                 if f2 is not None and (best is None or c + f2 < best):
                     best = c + f2
         return best
@@ -262,10 +342,8 @@ class St:
         self.scale.pop(vid, None)
         self.taint.discard(vid)
         self.res.pop(vid, None)
-        if self.facts:
-            dead = [k for k in self.facts if k[0] == vid or k[1] == vid]
-            for k in dead:
-                del self.facts[k]
+        for k in self.facts.touching(vid):
+            self.facts.pop(k)
 
 
 def same_state(a, b):
@@ -585,9 +663,10 @@ def rename_vid(st, old, new):
         st.taint.add(new)
     if old in st.res:
         st.res[new] = st.res.pop(old)
-    for k in [k for k in st.facts if k[0] == old or k[1] == old]:
+    for k in st.facts.touching(old):
         c = st.facts.pop(k)
-        st.facts[(new if k[0] == old else k[0], new if k[1] == old else k[1])] = c
+        if c is not None:
+            st.facts[(new if k[0] == old else k[0], new if k[1] == old else k[1])] = c
     for k, p in list(st.prov.items()):
         if old in p[1]:
             st.prov[k] = (p[0], tuple(new if x == old else x for x in p[1]), p[2])
@@ -609,7 +688,7 @@ def rename_bulk(st, m):
             st.store[k] = nv
     g = lambda x: m.get(x, x)
     st.itv = {g(k): v for k, v in st.itv.items()}
-    st.facts = {(g(a), g(b)): c for (a, b), c in st.facts.items()}
+    st.facts = Facts({(g(a), g(b)): c for (a, b), c in st.facts.items()})
     st.prov = {g(k): (p[0], tuple(g(x) for x in p[1]), p[2]) for k, p in st.prov.items()}
     st.scale = {g(k): (mm, g(b)) for k, (mm, b) in st.scale.items()}
     st.taint = {g(x) for x in st.taint}
@@ -642,7 +721,8 @@ def gc_state(st, pins=()):
                 live.add(s[1])
                 changed = True
     st.itv = {k: v for k, v in st.itv.items() if k in live}
-    st.facts = {k: c for k, c in st.facts.items() if k[0] in live and k[1] in live}
+    if any(k[0] not in live or k[1] not in live for k in st.facts.d):
+        st.facts = Facts({k: c for k, c in st.facts.items() if k[0] in live and k[1] in live})
     st.prov = {k: p for k, p in st.prov.items() if k in live}
     st.scale = {k: s for k, s in st.scale.items() if k in live and s[1] in live}
     st.taint &= live
